@@ -68,7 +68,7 @@ func (r *lruRunner) dump() string {
 
 // collect handler invocations of the last call: wait for `want` of them, then give stragglers a chance
 func (r *lruRunner) collect(want int) string {
-	deadline := time.Now().Add(500 * time.Millisecond)
+	deadline := time.Now().Add(10 * time.Second)
 	for {
 		r.mu.Lock()
 		n := len(r.inv)
